@@ -17,8 +17,9 @@
 
    The CIDR trie is represented by the finite map of its stored prefixes (C36 proves the Go trie is
    that map and LookupPath = the stored prefixes covering the query, shortest first).
-   Go map / set iteration orders never influence the accumulated result here: every loop over a set
-   performs per-element effects on distinct CIDRs (see Proofs.v, flush_perm).
+   Go map / set iteration orders: every loop over a map or set in this code performs per-element effects
+   on distinct CIDRs, so the model iterates in list order (an assumption listed in props/C43.py; it is not
+   proved here, the correspondence run exercises Go's randomised map order on every case).
 
    Not modelled: IPv6 routes, tunnel addresses of nodes (IPIP / VXLAN / Wireguard refs), remote
    workload endpoints (routeSource WorkloadIPs), NAT-outgoing (held constant by the driver).
@@ -426,3 +427,25 @@ Definition mgr_routes (T : N) (peers : list (N * N)) (routes : list (prefix * ro
 
 Definition kernel (peers : list (N * N)) (routes : list (prefix * route)) : list kroute :=
   mgr_routes 1 peers routes ++ mgr_routes 2 peers routes ++ mgr_routes 3 peers routes.
+
+(* ------------------------------------------------------------------ routeManager, message by message *)
+
+(* the stream the resolver's callbacks produce *)
+Inductive msg := MUpd (c : prefix) (r : route) | MRem (c : prefix).
+(* routesByDest, localIPAMBlocks *)
+Record mst := mkM { m_rbd : list (prefix * route); m_lb : list (prefix * route) }.
+
+(* routeManager.OnUpdate: deleteRoute(dst), then keep the update where it applies *)
+Definition mgr_on_update (T : N) (m : mst) (x : msg) : mst :=
+  match x with
+  | MUpd c r =>
+      let rbd := aremove prefix_eqb (m_rbd m) c in
+      let lb := aremove prefix_eqb (m_lb m) c in
+      mkM (if mgr_keeps T r then aset prefix_eqb rbd c r else rbd)
+          (if mgr_local_block T c r then aset prefix_eqb lb c r else lb)
+  | MRem c => mkM (aremove prefix_eqb (m_rbd m) c) (aremove prefix_eqb (m_lb m) c)
+  end.
+
+(* the route set the stream amounts to *)
+Definition acc_msg (out : list (prefix * route)) (x : msg) : list (prefix * route) :=
+  match x with MUpd c r => aset prefix_eqb out c r | MRem c => aremove prefix_eqb out c end.
